@@ -39,6 +39,7 @@ RULE = (
     "end (non-trivial there: >= 2 rounds of exports, one of a branch as above)."
 )
 ASSUMPTIONS = [
+    "data_ids that differ have different texts (graph node keys are the text of the data_id: the int 42 and the str '42' are not used together)",
     "labels, kinds and explicit data_ids contain no whitespace, quotes or syntax characters of the three formats",
     "a graph node defined twice with the same key is one graph node (DOT semantics); only the set of keys and their labels is compared",
     "rdflib's Graph is the trusted triple store; RDF graphs are sets, so edges are compared as a set there",
@@ -263,12 +264,18 @@ def check_exports(tree, start, rec, typed, nt=True, variant="to_dot", prior_abor
             else:
                 got_nodes = {}
                 for k_, attrs in dn:
-                    got_nodes.setdefault(k_, attrs.get("label"))
+                    # a key defined twice is one graph node; a later definition may add the label (DOT semantics)
+                    if got_nodes.get(k_) is None:
+                        got_nodes[k_] = attrs.get("label")
                 if with_root and start is not None:
-                    # a non-system-root start node is emitted without label
+                    # a non-system-root start node is emitted without label - unless one of its descendants shares
+                    # its key (a clone of the start node inside the branch): that child's name labels the graph node
                     exp_cmp = dict(exp_nodes)
                     rk = str(key(root_obj))
-                    if got_nodes.get(rk) is None:
+                    same_key = [n for n in branch if str(key(n)) == rk]
+                    if same_key:
+                        exp_cmp[rk] = f"{same_key[0].data}"  # the first definition that carries a label
+                    elif got_nodes.get(rk) is None:
                         exp_cmp[rk] = None
                 else:
                     exp_cmp = exp_nodes
@@ -405,6 +412,16 @@ def hyp_cases(draw, tier):
     typed = draw(st.booleans())
     opts = gen.node_opts(explicit_ids=True, kinds=typed)
     spec = draw(gen.forest_specs(max_nodes=14, max_depth=5, max_width=4, min_nodes=0, opts=opts, alphabet=["a", "b", "c", "d", "a1", "b1", "ä"]))
+    gen.fix_sibling_ids(spec)
+
+    def distinct_as_text(nodes):
+        # graph node keys are the text of the data_id: the int 42 and the str "42" would be one key in any export
+        for nd in nodes:
+            if len(nd) > 2 and nd[2] and nd[2].get("id") == "42":
+                nd[2]["id"] = "s42"
+            distinct_as_text(nd[1])
+
+    distinct_as_text(spec)
     gen.fix_sibling_ids(spec)
     n = gen.spec_nodes(spec)
     return {"spec": spec, "typed": typed, "start": draw(st.integers(-1, max(0, n - 1))),
